@@ -359,6 +359,18 @@ def run(tier: str, seed: int) -> Report:  # noqa: PLR0912, PLR0915
                     c = U.run_hpx(mode, host, pl[off:off + 8192], dflt)
                     c["origin"] = "port-sweep"
                     ucases.append(c)
+    # other spellings of the same written text: IPv6 in brackets without a port ("[::1]"), and the netloc of a target
+    # URI built from the parts (TargetURI.from_parts(...).netloc is what the capture filter code splits)
+    for host in [h for hs in U.HOSTS.values() for h in hs] + ["::1"]:
+        for mode in ("splitb", "netloc"):
+            for dflt in (U.NOPORT, 7, 13400):
+                for port in (U.NOPORT, 0, 1, 6801, 65535):
+                    try:
+                        c = U.run_hp(mode, host, port, dflt)
+                    except Exception:  # noqa: BLE001  (from_parts itself refusing the host is U0's subject)
+                        continue
+                    c["origin"] = "written-spellings"
+                    ucases.append(c)
     if thorough:  # every other listed host: boundary ports
         for host in [h for hs in U.HOSTS.values() for h in hs if h not in sweep_hosts]:
             for mode in ("hp", "split"):
